@@ -99,16 +99,18 @@ def object_texts(model):
         on = model[f'F{k}_on']
         body = f'f{k}' if on == ON[0] else (f'__typename g{k}' if on == 'I0' else '__typename')
         frags.append(f'fragment F{k} on {on} {{ {body} }}')
+    import re as _re
+    text = ' '.join(model['selections'])
     for s_ in model['selections']:
         if s_ == '__typename':
             keys.add('__typename')
-        elif s_ == 'leaf' or s_.startswith('... on'):
+        elif s_ == 'leaf' or (s_.startswith('... on') and 'leaf' in s_):
             keys.add('leaf')
-        elif s_.startswith('...F'):
-            k = int(s_[4])
+    for k in (1, 2):
+        if _re.search(rf'\.\.\.F{k}\b', text):
             on = model[f'F{k}_on']
             keys |= {f'f{k}'} if on == ON[0] else ({'__typename', f'g{k}'} if on == 'I0' else {'__typename'})
-    used = [f for f, k in zip(frags, (1, 2)) if f'...F{k}' in model['selections']]
-    query = 'query Q { n { ' + ' '.join(model['selections']) + ' } }\n' + '\n'.join(used) + '\n'
+    used = [f for f, k in zip(frags, (1, 2)) if _re.search(rf'\.\.\.F{k}\b', text)]
+    query = 'query Q { n { ' + text + ' } }\n' + '\n'.join(used) + '\n'
     payload = {'n': {'__typename': ON[0], 'leaf': 1, 'g1': 4, 'g2': 5, 'f1': 2, 'f2': 3}}
     return schema, query, payload, keys
